@@ -165,10 +165,15 @@ func parseDERSig(sig []byte) (r, s *big.Int, err error) {
 	if err != nil {
 		return nil, nil, bad
 	}
-	s, rest, err = readInt(rest)
-	if err != nil || len(rest) != 0 {
+	s, _, err = readInt(rest)
+	if err != nil {
 		return nil, nil, bad
 	}
+	// Bytes after the two INTEGERs but still inside the SEQUENCE are tolerated: encoding/asn1 deliberately accepts extra
+	// elements at the end of a SEQUENCE when unmarshalling into a struct, and the repository's verifier inherits that.
+	// (Bytes after the SEQUENCE are refused above, as signingalgorithm.Verify refuses them.) Such a re-encoding of the
+	// signature leaves everything the signature covers unchanged, so it is outside what property C01 forbids; demanding
+	// strictness here was a false alarm of this oracle (DESIGN.md, "false alarms").
 	return r, s, nil
 }
 
